@@ -1,1 +1,293 @@
-/-! Property theorems for C17 (only property-level statements and non-vacuity examples live here). -/
+import SpoxModel.Lemmas.Dispatch
+import SpoxModel.Generated.ResultType
+/-!
+# C17 — overloaded Python operators on Var follow numpy semantics
+
+The model (`Model/Dispatch.lean`) is executed against the real dispatcher on every run (emitted
+operator tree, result dtype or error class, for every operator x operand kind x side x setting) and its
+integer semantics `eval` against onnxruntime (tie H); numpy's promotion tables, numpy's own result
+dtypes and ONNX's operator type constraints (`Generated/ResultType.lean`) are tabulated from numpy and
+onnx.defs on every run (tie G), so the `decide` theorems are re-proved against what they say *now*.
+Values of floating-point results are not the subject of a theorem (see `floordiv_float_partial`).
+-/
+namespace C17
+open Dispatch Generated.ResultType
+
+def binOps : List Op := [.add, .sub, .mul, .truediv, .floordiv]
+def opIndex : Op → Nat
+  | .add => 0 | .sub => 1 | .mul => 2 | .truediv => 3 | .floordiv => 4 | _ => 5
+
+/-- numeric dtypes: 0-10 -/
+def numeric : List Nat := [0, 1, 2, 3, 4, 5, 6, 7, 8, 9, 10]
+
+/-- the operand kinds of the statement (numeric Vars, Python int / float) and more (Python bool,
+    numpy scalars of every numeric dtype) -/
+def operands : List Operand :=
+  numeric.map .var ++ [.pyInt 3, .pyFloat, .pyBool true] ++ numeric.map .npScalar
+
+def Operand.isVar : Operand → Bool
+  | .var _ => true
+  | _ => false
+
+def kindOf (o : Operand) : Nat := o.kind.getD 0
+
+def resultDtype (r : Except Err (Tree × Nat)) : Option Nat :=
+  match r with
+  | .ok (_, d) => some d
+  | .error _ => none
+
+def isErr (r : Except Err (Tree × Nat)) (e : Err) : Bool :=
+  match r with
+  | .ok _ => false
+  | .error e' => e == e'
+
+/-- the dtype numpy itself gives to `a <op> b` (generated table) -/
+def npResult (op : Op) (a b : Operand) : Option Nat :=
+  ((npBinary.getD (opIndex op) []).getD (kindOf a) []).getD (kindOf b) none
+
+theorem result_dtype_matches :
+    ∀ op ∈ binOps, ∀ a ∈ operands, ∀ b ∈ operands, (Operand.isVar a || Operand.isVar b) = true →
+      resultDtype (dispatch info (some (true, true)) op a b) = npResult op a b := by
+  decide +kernel
+
+
+/-- unary minus keeps numpy's element type wherever ONNX defines `Neg` -/
+theorem neg_dtype_matches :
+    ∀ s ∈ [(true, true), (true, false), (false, true), (false, false)], ∀ d ∈ numeric,
+      info.allowed "Neg" d = true →
+        resultDtype (dispatch info (some s) .neg (.var d) .other) = npNeg.getD d none := by
+  decide +kernel
+
+/-! ## Promotion switched off: nothing is converted -/
+
+/-- the expression casts an operand Var -/
+def convertsOperand : Tree → Bool
+  | .arg _ => false
+  | .cast _ (.arg _) => true
+  | .cast _ t => convertsOperand t
+  | .constOf _ _ => false
+  | .zero _ => false
+  | .un _ t => convertsOperand t
+  | .bin _ l r => convertsOperand l || convertsOperand r
+
+def isInt (d : Nat) : Bool := info.integer d
+
+/-- With type promotion off: Vars of different element types raise TypeError; a Python float (or a
+    floating numpy scalar) meeting an integer Var raises TypeError; whatever is accepted keeps the
+    Var's element type and casts no operand. For every operand kind on either side, both settings of
+    constant promotion. -/
+theorem no_promotion_strict :
+    ∀ cp ∈ [true, false], ∀ op ∈ binOps,
+      (∀ da ∈ numeric, ∀ db ∈ numeric, da ≠ db →
+        isErr (dispatch info (some (false, cp)) op (.var da) (.var db)) .typeError = true) ∧
+      (∀ d ∈ numeric, isInt d = true →
+        isErr (dispatch info (some (false, cp)) op (.var d) .pyFloat) .typeError = true ∧
+        isErr (dispatch info (some (false, cp)) op .pyFloat (.var d)) .typeError = true) ∧
+      (∀ d ∈ numeric, ∀ o ∈ operands,
+        (match dispatch info (some (false, cp)) op (.var d) o with
+         | .ok (tree, r) => r == d && !convertsOperand tree && (match o with | .var d' => d' == d | _ => true)
+         | .error e => e == .typeError) = true ∧
+        (match dispatch info (some (false, cp)) op o (.var d) with
+         | .ok (tree, r) => r == d && !convertsOperand tree && (match o with | .var d' => d' == d | _ => true)
+         | .error e => e == .typeError) = true) := by
+  decide +kernel
+
+/-! ## Outside a block -/
+
+/-- **Outside an `operator_overloading` block every operator raises TypeError** — any operator,
+    any operands (any table). -/
+theorem outside_block_typeerror (np : NpInfo) (op : Op) (a b : Operand) :
+    dispatch np none op a b = .error .typeError := rfl
+
+/-! ## Logical operators -/
+
+def logicOps : List Op := [.and_, .or_, .xor]
+
+/-- **`& | ^ ~` on boolean Vars are numpy's logical operators**: the emitted operator applied to
+    0/1 values gives numpy's answer, the result is boolean, in every promotion setting. -/
+theorem logical_matches :
+    ∀ s ∈ [(true, true), (true, false), (false, true), (false, false)], ∀ x ∈ [false, true], ∀ y ∈ [false, true],
+      (∀ op ∈ logicOps,
+        (match dispatch info (some s) op (.var boolDt) (.var boolDt) with
+         | .ok (tree, d) => d == boolDt &&
+             eval info (.var boolDt) (.var boolDt) (b2i x) (b2i y) tree == some (boolDt, b2i (npLogical op x y))
+         | .error _ => false) = true) ∧
+      (match dispatch info (some s) .not_ (.var boolDt) .other with
+       | .ok (tree, d) => d == boolDt &&
+           eval info (.var boolDt) .other (b2i x) 0 tree == some (boolDt, b2i (npLogical .not_ x false))
+       | .error _ => false) = true := by
+  decide +kernel
+
+
+/-! ## Values: integer arithmetic agrees with numpy for all operand values -/
+
+def ints : List Nat := [0, 1, 2, 3, 4, 5, 6, 7]
+def intOps : List Op := [.add, .sub, .mul, .floordiv]
+
+theorem int_shape :
+    ∀ cp ∈ [true, false], ∀ op ∈ intOps, ∀ da ∈ ints, ∀ db ∈ ints,
+      (match info.rt2 da db with
+       | some t => !info.integer t ||
+           ((match dispatch info (some (true, cp)) op (.var da) (.var db) with
+             | .ok (tree, d) => tree == arithTree info op t (.cast t (.arg 0)) (.cast t (.arg 1)) && d == t
+             | .error _ => false) &&
+            t != boolDt && rangeSub info da t && rangeSub info db t && decide (2 ≤ info.bits t))
+       | none => true) = true := by
+  decide +kernel
+
+def intMin (t : Nat) : Int := -(2 : Int) ^ (info.bits t - 1)
+
+theorem arith_matches (cp : Bool) (op : Op) (hop : op ∈ intOps) (da db : Nat) (hda : da ∈ ints) (hdb : db ∈ ints)
+    (t : Nat) (ht : info.rt2 da db = some t) (hint : info.integer t = true)
+    (x y : Int) (hx : inRange info da x = true) (hy : inRange info db y = true)
+    (hdiv : op = .floordiv → y ≠ 0 ∧ ¬(x = intMin t ∧ y = -1)) :
+    ∃ tree, dispatch info (some (true, cp)) op (.var da) (.var db) = .ok (tree, t) ∧
+      eval info (.var da) (.var db) x y tree = some (t, npInt info op t x y) := by
+  have hcp : cp ∈ [true, false] := by cases cp <;> simp
+  have h := int_shape cp hcp op hop da hda db hdb
+  simp only [ht, hint, Bool.not_true, Bool.false_or, Bool.and_eq_true, decide_eq_true_eq, bne_iff_ne, ne_eq] at h
+  obtain ⟨⟨⟨⟨hd, htb⟩, hra⟩, hrb⟩, hbits⟩ := h
+  cases hdisp : dispatch info (some (true, cp)) op (.var da) (.var db) with
+  | error e => simp [hdisp] at hd
+  | ok p =>
+    obtain ⟨tree, d⟩ := p
+    simp only [hdisp, Bool.and_eq_true, beq_iff_eq] at hd
+    obtain ⟨rfl, rfl⟩ := hd
+    refine ⟨_, rfl, ?_⟩
+    have hxt := inRange_mono info da d hra x hx
+    have hyt := inRange_mono info db d hrb y hy
+    have hw : ∀ v, inRange info d v = true → wrap info d v = v := fun v hv => wrap_id info d (by omega) v hv
+    have htb' : (d == boolDt) = false := by simpa using htb
+    have el : eval info (.var da) (.var db) x y (.cast d (.arg 0)) = some (d, x) := by
+      simp [eval, hint, htb', hw x hxt]
+    have er : eval info (.var da) (.var db) x y (.cast d (.arg 1)) = some (d, y) := by
+      simp [eval, hint, htb', hw y hyt]
+    simp only [intOps, List.mem_cons, List.not_mem_nil, or_false] at hop
+    rcases hop with rfl | rfl | rfl | rfl
+    · simp only [arithTree, eval_bin, el, er, npInt]
+    · simp only [arithTree, eval_bin, el, er, npInt]
+    · simp only [arithTree, eval_bin, el, er, npInt]
+    · obtain ⟨hy0, hov⟩ := hdiv rfl
+      by_cases hs : info.signed d = true
+      · simp only [arithTree, hint, hs, Bool.not_true, Bool.false_eq_true, if_false, if_true, npInt]
+        -- the representable range of the signed type d
+        have hrange : ∀ v, inRange info d v = true ↔ (-(2 : Int) ^ (info.bits d - 1) ≤ v ∧ v < (2 : Int) ^ (info.bits d - 1)) := by
+          intro v; simp [inRange, hs]
+        have hwP : ∀ v, -(2 : Int) ^ (info.bits d - 1) ≤ v → v < (2 : Int) ^ (info.bits d - 1) → wrap info d v = v :=
+          fun v h1 h2 => hw v ((hrange v).2 ⟨h1, h2⟩)
+        have hP2 : (2 : Int) ≤ (2 : Int) ^ (info.bits d - 1) := by
+          have := two_pow_mono (show 1 ≤ info.bits d - 1 by omega)
+          simpa using this
+        obtain ⟨hx1, hx2⟩ := (hrange x).1 hxt
+        obtain ⟨hy1, hy2⟩ := (hrange y).1 hyt
+        have key := floordiv_correct (wrap info d) _ hwP x y hx1 hx2 hy1 hy2 hy0 (by simpa [intMin] using hov)
+        -- evaluate the emitted expression bottom-up
+        have eDiv : eval info (.var da) (.var db) x y (.bin .Div (.cast d (.arg 0)) (.cast d (.arg 1)))
+            = some (d, wrap info d (x.tdiv y)) := by
+          simp only [eval_bin, el, er, hy0, if_false]
+        have eMul := eval_bin info (.var da) (.var db) x y .Mul (.bin .Div (.cast d (.arg 0)) (.cast d (.arg 1))) (.cast d (.arg 1))
+        simp only [eDiv, er] at eMul
+        have eRem := eval_bin info (.var da) (.var db) x y .Sub (.cast d (.arg 0))
+          (.bin .Mul (.bin .Div (.cast d (.arg 0)) (.cast d (.arg 1))) (.cast d (.arg 1)))
+        simp only [el, eMul] at eRem
+        have eZero : eval info (.var da) (.var db) x y (.zero d) = some (d, 0) := rfl
+        have eEq := eval_bin info (.var da) (.var db) x y .Equal
+          (.bin .Sub (.cast d (.arg 0)) (.bin .Mul (.bin .Div (.cast d (.arg 0)) (.cast d (.arg 1))) (.cast d (.arg 1)))) (.zero d)
+        simp only [eRem, eZero] at eEq
+        have eNot := eval_un info (.var da) (.var db) x y .Not (.bin .Equal
+          (.bin .Sub (.cast d (.arg 0)) (.bin .Mul (.bin .Div (.cast d (.arg 0)) (.cast d (.arg 1))) (.cast d (.arg 1)))) (.zero d))
+        simp only [eEq] at eNot
+        have eLt1 := eval_bin info (.var da) (.var db) x y .Less
+          (.bin .Sub (.cast d (.arg 0)) (.bin .Mul (.bin .Div (.cast d (.arg 0)) (.cast d (.arg 1))) (.cast d (.arg 1)))) (.zero d)
+        simp only [eRem, eZero] at eLt1
+        have eLt2 := eval_bin info (.var da) (.var db) x y .Less (.cast d (.arg 1)) (.zero d)
+        simp only [er, eZero] at eLt2
+        rw [eval_bin, eDiv, eval_cast, eval_bin, eNot, eval_bin, eLt1, eLt2]
+        simp only [htb', hint, Bool.false_eq_true, if_false, if_true, b2i_ne_zero, one_sub_b2i_ne_zero]
+        have hb2i : ∀ c : Bool, wrap info d (b2i c) = b2i c := by
+          intro c
+          cases c
+          · exact hwP _ (by simp only [b2i]; omega) (by simp only [b2i]; omega)
+          · exact hwP _ (by simp only [b2i]; omega) (by simp only [b2i]; omega)
+        rw [hb2i]
+        have hite : ∀ (R : Int), b2i (!(R == 0) && (decide (R < 0) != decide (y < 0)))
+            = (if R ≠ 0 ∧ (decide (R < 0) != decide (y < 0)) = true then 1 else 0) := by
+          intro R
+          by_cases h0 : R = 0 <;> cases hh : (decide (R < 0) != decide (y < 0)) <;> simp [b2i, h0]
+        rw [hite]
+        dsimp only at key
+        have hfd : wrap info d (x.fdiv y) = x.fdiv y := by
+          rw [← key]; exact hw _ (wrap_inRange info d (by omega) _)
+        rw [hfd, key]
+      · simp only [arithTree, hint, hs, Bool.not_true, Bool.false_eq_true, if_false, npInt, eval_bin, el, er, hy0]
+        have hx0 : 0 ≤ x := by
+          have := hxt; simp [inRange, hs] at this; exact this.1
+        have hy0' : 0 ≤ y := by
+          have := hyt; simp [inRange, hs] at this; exact this.1
+        rw [Int.fdiv_eq_tdiv_of_nonneg hx0 hy0']
+
+
+/-- unary minus on signed integer Vars: numpy's value for every operand value (wrap-around at INT_MIN) -/
+theorem neg_matches (s : Bool × Bool) (d : Nat) (hd : d ∈ [0, 1, 2, 3]) (x : Int) :
+    dispatch info (some s) .neg (.var d) .other = .ok (.un .Neg (.arg 0), d) ∧
+      eval info (.var d) .other x 0 (.un .Neg (.arg 0)) = some (d, npInt info .neg d x 0) := by
+  have hs : s ∈ [(true, true), (true, false), (false, true), (false, false)] := by
+    obtain ⟨a, b⟩ := s; cases a <;> cases b <;> simp
+  have h : ∀ s ∈ [(true, true), (true, false), (false, true), (false, false)], ∀ d ∈ [0, 1, 2, 3],
+      (match dispatch info (some s) .neg (.var d) .other with
+       | .ok (tree, r) => tree == Tree.un .Neg (.arg 0) && r == d
+       | .error _ => false) = true := by decide +kernel
+  have h' := h s hs d hd
+  refine ⟨?_, rfl⟩
+  cases hdisp : dispatch info (some s) .neg (.var d) .other with
+  | error e => simp [hdisp] at h'
+  | ok p =>
+    obtain ⟨tree, r⟩ := p
+    simp only [hdisp, Bool.and_eq_true, beq_iff_eq] at h'
+    obtain ⟨rfl, rfl⟩ := h'
+    rfl
+
+/-! ## What does not hold (listed findings), with the part that does -/
+
+/-- Known finding `neg:unsigned:refused`: numpy negates unsigned arrays (wrap-around), ONNX defines no
+    `Neg` on unsigned tensors, so `-x` is refused (InferenceError) for every unsigned element type. -/
+theorem neg_unsigned_counterexample :
+    ∀ s ∈ [(true, true), (true, false), (false, true), (false, false)], ∀ d ∈ [4, 5, 6, 7],
+      isErr (dispatch info (some s) .neg (.var d) .other) .inferenceError = true ∧ npNeg.getD d none = some d := by
+  decide +kernel
+
+/-- Float floor division is emitted as `Floor(Div(a, b))` in the promoted floating type (known finding
+    `floordiv:float:rounded-quotient`: numpy's `floor_divide` is `fmod`-based and can be one below the
+    floor of the rounded quotient, e.g. `1.0 // 0.1`). The element type is numpy's
+    (`result_dtype_matches`); agreement of the *values* is not a theorem: it holds exactly where the
+    IEEE quotient is not rounded up to an integer, and is checked against numpy by the oracle. -/
+theorem floordiv_float_partial :
+    ∀ a ∈ operands, ∀ b ∈ operands, (Operand.isVar a || Operand.isVar b) = true →
+      (match npResult .floordiv a b with
+       | some t => !info.floating t ||
+           (match dispatch info (some (true, true)) .floordiv a b with
+            | .ok (.un .Floor (.bin .Div _ _), r) => r == t
+            | _ => false)
+       | none => true) = true := by
+  decide +kernel
+
+/-- What the pinned tree emitted for integer `//` (a bare `Div`) is *not* numpy's floor division:
+    `-7 // 2` evaluates to `-3`, numpy gives `-4` (fixed: `arith_matches` now covers `//`). -/
+theorem floordiv_bare_div_counterexample :
+    eval info (.var 3) (.var 3) (-7) 2 (.bin .Div (.cast 3 (.arg 0)) (.cast 3 (.arg 1))) = some (3, -3) ∧
+      npInt info .floordiv 3 (-7) 2 = -4 := by
+  decide +kernel
+
+/-! ## Non-vacuity -/
+
+example : ∃ tree, dispatch info (some (true, true)) .floordiv (.var 2) (.var 3) = .ok (tree, 3) ∧
+    eval info (.var 2) (.var 3) (-7) 2 tree = some (3, -4) := by
+  obtain ⟨tree, h1, h2⟩ := arith_matches true .floordiv (by simp [intOps]) 2 3 (by simp [ints]) (by simp [ints]) 3
+    (by decide +kernel) (by decide +kernel) (-7) 2 (by decide +kernel) (by decide +kernel) (fun _ => ⟨by decide, by decide⟩)
+  exact ⟨tree, h1, by rw [h2]; decide +kernel⟩
+example : resultDtype (dispatch info (some (true, true)) .truediv (.var 2) (.var 2)) = some f64 := by decide +kernel
+example : resultDtype (dispatch info (some (true, true)) .add (.var 7) (.var 3)) = some f64 := by decide +kernel
+example : isErr (dispatch info (some (false, true)) .add (.var 2) .pyFloat) .typeError = true := by decide +kernel
+example : isErr (dispatch info (some (true, true)) .add (.var 0) (.pyInt 1000)) .overflowError = true := by decide +kernel
+
+end C17
